@@ -614,7 +614,7 @@ struct Exec {
 		// ---- postconditions P*
 		// a load whose stream was cut may legitimately read other extents than were saved (a number cut short still parses:
 		// "10" becomes "1") and resize: "needs no new storage" is only known for the stream as it was written
-		bool const cut_load = op.kind == O_LOAD && fired;
+		bool const cut_load = op.kind == O_LOAD && fired && !eff.viewwrite[0];  // (a load into a view never resizes, cut or not)
 		if(eff.expect_no_alloc && !cut_load && (ev[E_ALLOC] != 0 || ev[E_DEALLOC] != 0)) fail("P-allocated", eff.variant + " performed " + std::to_string(ev[E_ALLOC]) + " allocation(s) and " + std::to_string(ev[E_DEALLOC]) + " deallocation(s); it needs no new storage");
 		if(eff.expect_no_elem_events && !threw) {
 			int const n = ev[E_DCTOR] + ev[E_CCTOR] + ev[E_MCTOR] + ev[E_CASSIGN] + ev[E_MASSIGN] + ev[E_CONV] + ev[E_DTOR];
